@@ -19,7 +19,7 @@ TARGET = {
  'C15-m1': [('C15', 'w4'), ('C15', 'w1')], 'C15-m2': [('C15', None)],
  'C16-m1': [('C16', 'w32'), ('C16', 'w64')], 'C16-m2': [('C16', 'REL_SUMMARY')],
  'C18-m1': [('C18', 'sw')], 'C18-m2': [('C18', 'hw')], 'C18-m3': [('C18', 'L7')],
- 'C19-m1': [('C19', None)], 'C19-m2': [('C19', None)],
+ 'C19-m1': [('C19', 'O2_rd_open')], 'C19-m2': [('C19', None)],
  'C20-m1': [('C20', 'ALIAS')], 'C20-m2': [('C20', 'KMM')], 'C20-m3': [('C20', 'KMM_f32')],
  'C17-m1': [('C17', None)], 'C17-m2': [('C17', None)], 'C11-m1': [('C11', 'seek')], 'C11-m2': [('C11', 'iterate')],
  'C02-m1': [('C02', None)], 'C02-m2': [('C02', 'LN')],
